@@ -475,7 +475,36 @@ def mutate_everything(root):
     return n
 
 
+def _trace_state(x, t):
+    tr = getattr(x, '__dict__', {}).get('_trace')
+    if tr is None or not isinstance(t, int) or not 0 <= t < len(tr) or not _is_trace(tr[t]):
+        return None
+    o = tr[t]
+    return (o, len(o.index), o.values.shape[1] if o.values.ndim == 2 else 0)
+
+
 def run_op(roots, i, o, enc):
+    """one operation on the real object.  A traced operation that raises may already have stored something in the Trace of
+    period t (TracerMixin.solve_t traces 'start' before the feasibility guard of BaseModel.solve_t; Trace.append appends the label
+    before np.hstack rejects a column of another height): which labels were stored completely / label-only is recorded with the
+    exception so that the model is driven through the same partial operation"""
+    if o[0] in ('solve', 'trace_t'):
+        r = roots[i]
+        x = r.cls if isinstance(r, ClassRoot) else r
+        before = _trace_state(x, o[1])
+        try:
+            return run_op_(roots, i, o, enc)
+        except Exception as e:
+            after = _trace_state(x, o[1])
+            traced = {'labels': [], 'full': 0}
+            if after is not None:
+                replaced = before is None or before[0] is not after[0]
+                traced = {'labels': list(after[0].index[(0 if replaced else before[1]):]), 'full': after[2] - (0 if replaced else before[2])}
+            return {'exc': type(e).__name__, 'traced': traced}
+    return run_op_(roots, i, o, enc)
+
+
+def run_op_(roots, i, o, enc):
     import numpy as np
     r = roots[i]
     x = r.cls if isinstance(r, ClassRoot) else r
@@ -686,15 +715,29 @@ def c_ops(case, ev, out, enc, kinds):
         return ['(OListSetItem %s %s %s)' % (cz(enc.code(o[1])), cz(o[2]), cz(enc.code(o[3])))]
     if k == 'dictset':
         return ['(ODictSet %s %s %s)' % (cz(enc.code(o[1])), cz(enc.code(o[2])), cz(enc.code(o[3])))]
+    def partial_trace(t, trace, reset):
+        tr = out.get('traced') or {'labels': [], 'full': 0}
+        if trace is None or trace is False:
+            return []
+        path = czl([vkey(enc.code('trace')), t, akey(enc.code('index'))])
+        ops = []
+        for j, lab in enumerate(tr['labels']):
+            if j < tr['full']:
+                ops.append('(OTraceT %s %s %s %s)' % (cz(t), cz(enc.code(lab)), c_tmode(trace, desc, enc), lib.cbool(reset and j == 0)))
+            else:
+                ops.append('(OPathAppend %s %s)' % (path, cz(enc.code(lab))))
+        return ops
     if k == 'solve':
         if 'exc' in out:
-            return []
+            return partial_trace(o[1], o[3], False)
         _, t, writes, trace = o
         tr = 'None' if trace is None else '(Some (%s, %s, %s, %s))' % (c_tmode(trace, desc, enc), cz(enc.code('start')), cz(enc.code('before')), cz(enc.code('end')))
         return ['@solve'] + ['(solve_ops %s %s %d%%nat %s %s %s)' % (cz(t), cpairs((enc.code(nm), val(v)) for nm, v in writes), out['iters'],
                                                                   cz(enc.code(out['status'])), cz(enc.code(out['iters'])), tr)]
     if k == 'trace_t':
         _, t, label, trace, reset = o
+        if 'exc' in out:
+            return partial_trace(t, trace, reset)
         return ['(OTraceT %s %s %s %s)' % (cz(t), cz(enc.code(label)), c_tmode(trace, desc, enc), lib.cbool(reset))]
     if k == 'tnames_append':
         return ['(OPathAppend %s %s)' % (czl([vkey(enc.code('trace')), o[1], akey(enc.code('names'))]), cz(enc.code(o[2])))]
@@ -1090,7 +1133,9 @@ def gen_op(rng, s, fresh_float, alias, tracer):
     if q < 0.31 and fv:
         return ['setscalar', rng.choice(names_for_access), lib.fhex(fresh_float())]
     if q < 0.42:
-        dtype = rng.choice(['float', 'float', 'int', 'bool', 'str', 'object'])
+        # (with a tracer every variable of `names` goes through one np.array([...]) per trace: NumPy's dtype coercion of mixed
+        # columns is not modelled, so traced models only get float variables)
+        dtype = 'float' if tracer else rng.choice(['float', 'float', 'int', 'bool', 'str', 'object'])
         name = rng.choice(['V1', 'V2', '_h', s.fvars[0] if s.fvars and rng.random() < 0.2 else 'V3'])
         if dtype == 'float':
             vals = [lib.fhex(fresh_float()) for _ in range(n)] if rng.random() < 0.6 else [lib.fhex(fresh_float())]
